@@ -43,6 +43,13 @@ def place_demo(d, demo_src, append, test):
 
 
 def guess_placement(notes):
+    d = re.search(r'DEMO-PLACEMENT:\s*`?(?:append to\s*)?`?((?:src|tests)/[\w/\-]+\.rs)', notes)
+    if d:
+        return (d.group(1), None) if d.group(1).startswith('src/') else (None, d.group(1))
+    return guess_placement_free(notes)
+
+
+def guess_placement_free(notes):
     m = re.search(r'(tests/[\w\-]+\.rs)', notes)
     a = re.search(r'(?:>>|append\w*(?: it| them)?(?: verbatim)?(?: to| at)?(?: the)?(?: very)?(?: end| bottom)?(?: of)?(?: the file)?)\s*\**`?(src/[\w/]+\.rs)', notes)
     if not a:
